@@ -457,6 +457,10 @@ impl<T> DataReaderEntity<T> {
                 Some(x) if is_not_alive && x.owner_handle != sample.writer_guid => (),
                 Some(x) => {
                     x.owner_handle = sample.writer_guid;
+                    // The deadline of the owner runs from its own last sample
+                    if x.last_received_time < reception_timestamp {
+                        x.last_received_time = reception_timestamp;
+                    }
                 }
                 None => self.instance_ownership.push(InstanceOwnership {
                     instance_handle: sample.instance_handle,
